@@ -295,6 +295,7 @@ Definition step_ok (o : opts) (l l' : line) : Prop :=
       length (f_texts f') = length (f_texts f) /\
       (acts <> [] -> shall_be_logged o (f_diag f) = true) /\
       Forall (fun a => fst a <> DSort) acts /\
+      (acts = [] -> f_above f' = f_above f /\ f_texts f' = f_texts f /\ f_below f' = f_below f) /\
       lreach l l' (map entry_of acts)
   | _, _ => False
   end.
@@ -309,13 +310,18 @@ Lemma step_ok_trans o l1 l2 l3 : step_ok o l1 l2 -> step_ok o l2 l3 -> step_ok o
 Proof.
   unfold step_ok. destruct (l_fix l1) as [f1|]; [|tauto]. destruct (l_fix l2) as [f2|]; [|tauto].
   destruct (l_fix l3) as [f3|]; [|tauto].
-  intros (a1 & A1 & D1 & V1 & M1 & N1 & R1 & F1 & L1 & S1 & NS1 & P1)
-         (a2 & A2 & D2 & V2 & M2 & N2 & R2 & F2 & L2 & S2 & NS2 & P2).
-  exists (a1 ++ a2). repeat split; try congruence.
-  - rewrite A2, A1, app_assoc. reflexivity.
-  - intro Hne. destruct a1 as [|x a1]; [apply S2 in Hne; congruence|apply S1; discriminate].
-  - apply Forall_app; split; assumption.
-  - rewrite map_app. eapply lreach_trans; eassumption.
+  intros (a1 & A1 & D1 & V1 & M1 & N1 & R1 & F1 & L1 & S1 & NS1 & U1 & P1)
+         (a2 & A2 & D2 & V2 & M2 & N2 & R2 & F2 & L2 & S2 & NS2 & U2 & P2).
+  exists (a1 ++ a2).
+  split; [rewrite A2, A1, app_assoc; reflexivity|].
+  split; [congruence|]. split; [congruence|]. split; [congruence|]. split; [congruence|].
+  split; [congruence|]. split; [congruence|]. split; [congruence|].
+  split; [intro Hne; destruct a1 as [|x a1]; [apply S2 in Hne; congruence|apply S1; discriminate]|].
+  split; [apply Forall_app; split; assumption|].
+  split; [intro Hnil; apply app_eq_nil in Hnil as [-> ->];
+          destruct (U1 eq_refl) as (X1 & X2 & X3); destruct (U2 eq_refl) as (Y1 & Y2 & Y3);
+          repeat split; congruence|].
+  rewrite map_app. eapply lreach_trans; eassumption.
 Qed.
 
 (* the common prelude of the operations *)
@@ -344,6 +350,7 @@ Proof.
   - apply set_nth_length.
   - intros _. exact S.
   - constructor; [discriminate|constructor].
+  - discriminate.
   - intros pre post Hp. apply reach_one.
     unfold entry_of. cbn [fst snd action_of].
     rewrite (act_entry_at (l_lineno l) pre j) by (try apply W; auto).
@@ -418,7 +425,7 @@ Proof.
   apply skip_false in K. intro H. inversion H; subst l'. clear H.
   unfold step_ok. rewrite E. cbn [l_fix with_fix].
   exists [(DAbove t, l_lineno l + 0)]. unfold describe, lineno_of. cbn.
-  repeat split; try reflexivity; [intros _; exact K|constructor; [discriminate|constructor]|].
+  repeat split; try reflexivity; try discriminate; [intros _; exact K|constructor; [discriminate|constructor]|].
   intros pre post Hp. apply reach_one. unfold entry_of. cbn [fst snd action_of].
   change 0 with (Z.of_nat 0).
   rewrite (act_entry_at (l_lineno l) pre 0) by (try apply W; auto).
@@ -472,7 +479,7 @@ Proof.
   end.
   unfold step_ok. rewrite E. cbn [l_fix with_fix].
   exists [(DBelow t, l_lineno l + (Z.of_nat (length (l_raw l)) - 1))]. unfold describe, lineno_of. cbn.
-  repeat split; try reflexivity;
+  repeat split; try reflexivity; try discriminate;
     [apply set_nth_length|intros _; exact K|constructor; [discriminate|constructor]|].
   intros pre post Hp. apply reach_one. unfold entry_of. cbn [fst snd action_of].
   replace (Z.of_nat (length (l_raw l)) - 1) with (Z.of_nat (n - 1)) by (unfold n; lia).
@@ -542,8 +549,10 @@ Proof.
   apply skip_false in K. intro H. inversion H; subst l'. clear H.
   unfold step_ok. rewrite E. cbn [l_fix with_fix].
   exists (delete_actions (l_lineno l) (length (f_texts f)) 0). cbn.
+  assert (Hnil : delete_actions (l_lineno l) (length (f_texts f)) 0 = [] -> repeat [] (length (f_texts f)) = f_texts f).
+  { destruct (f_texts f); [reflexivity|discriminate]. }
   repeat split; try reflexivity;
-    [apply repeat_length|intros _; exact K|apply delete_actions_props|].
+    [apply repeat_length|intros _; exact K|apply delete_actions_props|apply Hnil; assumption|].
   intros pre post Hp. unfold blocks_of_line. rewrite E. cbn [l_fix with_fix f_above f_texts f_below].
   pose proof (delete_reach (l_lineno l) (f_above f) (f_below f) (f_texts f) (length (f_texts f)) 0 pre post) as D.
   apply D; [apply W|exact Hp|reflexivity].
@@ -558,7 +567,7 @@ Proof.
   apply skip_false in K. intro H. inversion H; subst l' ran. clear H.
   unfold step_ok. rewrite E. cbn [l_fix with_fix].
   exists [(DChmod, l_lineno l + ri)]. unfold describe, lineno_of. cbn.
-  repeat split; try reflexivity; [intros _; exact K|constructor; [discriminate|constructor]|].
+  repeat split; try reflexivity; try discriminate; [intros _; exact K|constructor; [discriminate|constructor]|].
   intros pre post Hp. apply reach_one. unfold entry_of, act_entry. cbn. left.
   unfold blocks_of_line. rewrite E. reflexivity.
 Qed.
@@ -597,4 +606,508 @@ Proof.
     { unfold step_ok in S1. rewrite E in S1. destruct (l_fix l1); [eexists; reflexivity|tauto]. }
     eapply step_ok_trans; [exact S1|].
     eapply IH; [exact Ha|eapply step_ok_wf; eassumption|exact E1|exact H].
+Qed.
+
+(* ---------- one fix transaction ---------- *)
+
+Definition idle (l : line) : Prop :=
+  match l_fix l with
+  | None => True
+  | Some f => f_actions f = [] /\ f_diag f = [] /\ f_level f = false
+  end.
+
+Lemma apply_autofix o l f :
+  is_autofix o = true -> l_fix l = Some f -> f_level f = true ->
+  (f_actions f <> [] -> shall_be_logged o (f_diag f) = true) ->
+  apply o l = Ok (with_fix l (reset f), f_actions f).
+Proof.
+  intros Ha E Hl Hs. unfold apply, bind, the_fix. rewrite E, Hl, Ha. cbn [negb].
+  destruct (f_actions f) as [|x xs] eqn:Ea.
+  - rewrite andb_false_r. reflexivity.
+  - rewrite Hs by discriminate. reflexivity.
+Qed.
+
+Lemma blocks_with_fix_reset l f :
+  l_fix l = Some f -> blocks_of_line (with_fix l (reset f)) = blocks_of_line l.
+Proof. intro E. unfold blocks_of_line. rewrite E. reflexivity. Qed.
+
+Lemma do_txn_reach o t l0 l4 printed :
+  o_autofix o = true -> wf_line l0 -> idle l0 ->
+  do_txn o t l0 = Ok (l4, printed) ->
+  wf_line l4 /\ idle l4 /\ l_lineno l4 = l_lineno l0 /\ l_raw l4 = l_raw l0 /\ l_file l4 = l_file l0 /\
+  Forall (fun a : descr * Z => fst a <> DSort) printed /\
+  lreach l0 l4 (map entry_of printed) /\
+  (line_modified l4 = true -> line_modified l0 = true \/ printed <> []) /\
+  (printed = [] -> line_bytes l4 = line_bytes l0) /\
+  (printed <> [] -> line_modified l4 = true) /\
+  (line_modified l0 = true -> line_modified l4 = true).
+Proof.
+  intros Ha W I. unfold do_txn, bind.
+  (* fix := line.Autofix(); setDiag *)
+  assert (P : exists l2 f2,
+    (do (l1, _) <- autofix l0; set_diag (t_diag t) l1) = Ok l2 /\
+    l_fix l2 = Some f2 /\ f_actions f2 = [] /\ f_level f2 = true /\ f_diag f2 = t_diag t /\
+    f_modified f2 = line_modified l0 /\ blocks_of_line l2 = blocks_of_line l0 /\
+    wf_line l2 /\ l_lineno l2 = l_lineno l0 /\ l_raw l2 = l_raw l0 /\ l_file l2 = l_file l0 /\
+    f_above f2 ++ f_texts f2 ++ f_below f2 = line_bytes l0).
+  { unfold autofix, bind, idle, line_modified in *. destruct (l_fix l0) as [f|] eqn:E.
+    - destruct I as (A & D & L). rewrite D. unfold set_diag, bind, the_fix. rewrite E, L, D.
+      eexists _, _. split; [reflexivity|]. cbn.
+      unfold blocks_of_line. rewrite E. cbn.
+      split; [reflexivity|]. split; [exact A|]. split; [reflexivity|]. split; [reflexivity|].
+      split; [reflexivity|]. split; [reflexivity|].
+      split; [|repeat split; try reflexivity; unfold line_bytes; rewrite E; reflexivity].
+      destruct W as [W1 W2 W3]. split; cbn; [exact W1|exact W2|]. rewrite E in W3. exact W3.
+    - unfold set_diag, bind, the_fix. cbn.
+      eexists _, _. split; [reflexivity|]. cbn.
+      split; [reflexivity|]. split; [reflexivity|]. split; [reflexivity|]. split; [reflexivity|].
+      split; [reflexivity|].
+      split; [change (blocks_of_fix [] (l_raw l0) [] = blocks_of_line l0);
+              unfold blocks_of_line; rewrite E; apply blocks_of_new|].
+      split; [|repeat split; try reflexivity; unfold line_bytes; rewrite E; cbn; apply app_nil_r].
+      destruct W as [W1 W2 W3]. split; cbn; [exact W1|exact W2|reflexivity]. }
+  destruct P as (l2 & f2 & P0 & E2 & A2 & L2 & D2 & M2 & B2 & W2 & N2 & R2 & F2 & LB2).
+  unfold bind in P0.
+  destruct (autofix l0) as [[l1 f1]|]; [|discriminate]. rewrite P0.
+  destruct (do_ops o (t_ops t) l2) as [l3|] eqn:DO; [|discriminate].
+  pose proof (do_ops_step o (t_ops t) l2 l3 f2 Ha W2 E2 DO) as S.
+  pose proof (step_ok_wf o l2 l3 W2 S) as W3.
+  unfold step_ok in S. rewrite E2 in S. destruct (l_fix l3) as [f3|] eqn:E3; [|tauto].
+  destruct S as (acts & A3 & D3 & L3 & M3 & N3 & R3 & F3 & Len3 & S3 & NS3 & U3 & P3).
+  rewrite A2 in A3. cbn [app] in A3.
+  rewrite (apply_autofix o l3 f3); [|unfold is_autofix; rewrite Ha; reflexivity|exact E3|congruence|].
+  2:{ rewrite A3, D3. exact S3. }
+  intro H. inversion H; subst l4 printed. clear H.
+  repeat split.
+  - cbn. rewrite N3, N2. apply W.
+  - cbn. rewrite R3, R2. apply W.
+  - cbn. rewrite Len3. destruct W2 as [_ _ Wl]. rewrite E2 in Wl. rewrite R3. exact Wl.
+  - cbn. congruence.
+  - cbn. congruence.
+  - cbn. congruence.
+  - rewrite A3. exact NS3.
+  - rewrite A3. intros pre post Hp.
+    rewrite (blocks_with_fix_reset l3 f3 E3). rewrite <- B2.
+    apply P3. rewrite N2. exact Hp.
+  - unfold line_modified. cbn. rewrite A3. destruct acts; [|intros _; right; discriminate].
+    intro Hm. left. change (line_modified l0 = true). rewrite <- M2, <- M3. exact Hm.
+  - intro Hnil. rewrite A3 in Hnil. destruct (U3 Hnil) as (X1 & X2 & X3).
+    unfold line_bytes at 1. cbn. rewrite X1, X2, X3. exact LB2.
+  - intro Hne. unfold line_modified. cbn. rewrite A3 in *. destruct acts; [congruence|reflexivity].
+  - intro Hm. unfold line_modified at 1. cbn. rewrite A3. destruct acts; [|reflexivity].
+    rewrite M3, M2. exact Hm.
+Qed.
+
+(* ---------- the lines of a file ---------- *)
+
+Fixpoint numbered (start : Z) (ls : list line) : Prop :=
+  match ls with
+  | [] => True
+  | l :: ls' => l_lineno l = start /\ numbered (start + Z.of_nat (length (l_raw l))) ls'
+  end.
+
+Lemma blocks_of_store_app a b : blocks_of_store (a ++ b) = blocks_of_store a ++ blocks_of_store b.
+Proof. unfold blocks_of_store. apply flat_map_app. Qed.
+
+Lemma numbered_offset start s1 l s2 :
+  numbered start (s1 ++ l :: s2) -> Forall wf_line s1 ->
+  Z.of_nat (length (blocks_of_store s1)) = l_lineno l - start.
+Proof.
+  revert start; induction s1 as [|x s1 IH]; intros start H W; simpl in *.
+  - destruct H as [H _]. lia.
+  - destruct H as [Hx H]. inversion W as [|? ? Wx Ws]; subst.
+    specialize (IH _ H Ws). unfold blocks_of_store in *. cbn [flat_map]. rewrite app_length, blocks_of_line_length by apply Wx. lia.
+Qed.
+
+Lemma numbered_replace start s1 l l' s2 :
+  numbered start (s1 ++ l :: s2) -> l_lineno l' = l_lineno l -> l_raw l' = l_raw l ->
+  numbered start (s1 ++ l' :: s2).
+Proof.
+  revert start; induction s1 as [|x s1 IH]; intros start H E1 E2; simpl in *.
+  - rewrite E1, E2. exact H.
+  - destruct H as [Hx H]. split; [exact Hx|]. apply IH; assumption.
+Qed.
+
+Definition entries_of (file : str) (log : list logline) : list entry :=
+  map (fun g => entry_of (g_descr g, g_lineno g)) (filter (fun g => str_eqb (g_file g) file) log).
+
+Lemma entries_of_app file a b : entries_of file (a ++ b) = entries_of file a ++ entries_of file b.
+Proof. unfold entries_of. rewrite filter_app, map_app. reflexivity. Qed.
+
+Lemma entries_of_log_of file l printed :
+  l_file l = file -> entries_of file (log_of l printed) = map entry_of printed.
+Proof.
+  intro E. subst file. unfold entries_of, log_of. induction printed as [|[d z] ps IH]; [reflexivity|].
+  cbn [map filter g_file]. rewrite str_eqb_refl. cbn [map g_descr g_lineno fst snd].
+  f_equal. exact IH.
+Qed.
+
+Definition modified_logged (ls : list line) (log : list logline) : Prop :=
+  Forall (fun l => line_modified l = true -> exists g, In g log /\ g_file g = l_file l) ls.
+
+Record inv (file content : str) (st : state) : Prop := {
+  inv_wf : Forall wf_line (s_store st);
+  inv_idle : Forall idle (s_store st);
+  inv_num : numbered 1 (s_store st);
+  inv_file : Forall (fun l => l_file l = file) (s_store st);
+  inv_nosort : Forall (fun g => g_descr g <> DSort) (s_log st);
+  inv_logged : modified_logged (s_store st) (s_log st);
+  inv_unmod : Forall (fun l => line_modified l = false -> line_bytes l = l_raw l) (s_store st);
+  inv_reach : reach (init_blocks content) (entries_of file (s_log st)) (blocks_of_store (s_store st))
+}.
+
+Lemma Forall_split_mid {A} (P : A -> Prop) s1 x s2 :
+  Forall P (s1 ++ x :: s2) <-> Forall P s1 /\ P x /\ Forall P s2.
+Proof.
+  rewrite Forall_app. split.
+  - intros [H1 H2]. inversion H2; subst. auto.
+  - intros (H1 & H2 & H3). split; [assumption|constructor; assumption].
+Qed.
+
+Lemma modified_logged_mono ls log log' : modified_logged ls log -> modified_logged ls (log ++ log').
+Proof.
+  unfold modified_logged. apply Forall_impl. intros l H Hm. destruct (H Hm) as (g & Hg & Hf).
+  exists g. split; [apply in_or_app; left; exact Hg|exact Hf].
+Qed.
+
+Lemma step_txn_inv o keys file content t st st' :
+  o_autofix o = true -> inv file content st -> step o keys (ETxn t) st = Ok st' -> inv file content st'.
+Proof.
+  intros Ha [Wf Id Nu Fi Ns Lg Um Re]. cbn [step].
+  destruct (nth_error (s_store st) (t_line t)) as [l0|] eqn:En.
+  2:{ intro H. inversion H; subst. constructor; assumption. }
+  unfold bind. destruct (do_txn o t l0) as [[l1 printed]|] eqn:DT; [|discriminate].
+  intro H. inversion H; subst st'. clear H. cbn [s_store s_log s_ops].
+  apply nth_error_split in En as (s1 & s2 & Es & Elen). rewrite Es in *.
+  rewrite <- Elen, set_nth_split.
+  apply Forall_split_mid in Wf as (Wf1 & Wf0 & Wf2).
+  apply Forall_split_mid in Id as (Id1 & Id0 & Id2).
+  apply Forall_split_mid in Fi as (Fi1 & Fi0 & Fi2).
+  destruct (do_txn_reach o t l0 l1 printed Ha Wf0 Id0 DT) as (W1 & I1 & N1 & R1 & F1 & NS1 & P1 & M1 & LB1 & MD1 & MM1).
+  constructor; cbn [s_store s_log s_ops].
+  - apply Forall_split_mid. auto.
+  - apply Forall_split_mid. auto.
+  - eapply numbered_replace; eassumption.
+  - apply Forall_split_mid. repeat split; try assumption. congruence.
+  - apply Forall_app. split; [exact Ns|]. unfold log_of. apply Forall_forall.
+    intros g Hg. apply in_map_iff in Hg as (p & <- & Hp). cbn.
+    rewrite Forall_forall in NS1. apply NS1. exact Hp.
+  - unfold modified_logged in *. apply Forall_split_mid in Lg as (Lg1 & Lg0 & Lg2).
+    apply Forall_split_mid. repeat split.
+    + apply (modified_logged_mono s1 (s_log st)). exact Lg1.
+    + intro Hm. apply M1 in Hm as [Hm|Hne].
+      * destruct (Lg0 Hm) as (g & Hg & Hf). exists g. split; [apply in_or_app; left; exact Hg|congruence].
+      * destruct printed as [|p ps]; [congruence|]. exists (Log (l_file l1) (fst p) (snd p)).
+        split; [apply in_or_app; right; left; reflexivity|reflexivity].
+    + apply (modified_logged_mono s2 (s_log st)). exact Lg2.
+  - apply Forall_split_mid in Um as (Um1 & Um0 & Um2).
+    apply Forall_split_mid. repeat split; try assumption.
+    intro Hm. destruct printed as [|p ps].
+    + rewrite (LB1 eq_refl), R1. apply Um0.
+      destruct (line_modified l0) eqn:M0; [rewrite (MM1 eq_refl) in Hm; discriminate|reflexivity].
+    + rewrite MD1 in Hm by discriminate. discriminate.
+  - rewrite entries_of_app, (entries_of_log_of file l1 printed) by congruence.
+    eapply reach_app; [exact Re|].
+    rewrite !blocks_of_store_app. cbn [blocks_of_store flat_map].
+    apply P1. pose proof (numbered_offset 1 s1 l0 s2 Nu Wf1). lia.
+Qed.
+
+(* ---------- checkExecutable ---------- *)
+
+Lemma check_executable_spec o file x c printed ops :
+  check_executable o file x c = Ok (printed, ops) ->
+  Forall (fun p : descr * Z => fst p = DChmod) printed /\
+  (ops = [] \/ (ops = [OpChmod file] /\ o_autofix o = true /\ printed <> [])).
+Proof.
+  unfold check_executable. destruct x; cbn [negb]; [|intro H; inversion H; split; [constructor|left; reflexivity]].
+  destruct c; [intro H; inversion H; split; [constructor|left; reflexivity]|].
+  unfold bind, autofix, set_diag, the_fix, custom, bind, skip, apply, the_fix, bind, not_executable_format.
+  cbn -[shall_be_logged is_autofix].
+  match goal with |- context [shall_be_logged o ?d] => destruct (shall_be_logged o d) eqn:S end;
+    cbn -[shall_be_logged is_autofix].
+  - unfold is_autofix. destruct (o_autofix o) eqn:A, (o_show o); cbn.
+    all: try rewrite S; cbn.
+    all: intro H; inversion H; subst; (split; [repeat constructor|]); auto.
+    all: right; repeat split; discriminate.
+  - try rewrite S; cbn. intro H; inversion H; subst. split; [constructor|left; reflexivity].
+Qed.
+
+Definition no_sort_event (e : event) : Prop := match e with ESort => False | _ => True end.
+
+Lemma step_inv o keys file content e st st' :
+  o_autofix o = true -> no_sort_event e -> inv file content st -> step o keys e st = Ok st' -> inv file content st'.
+Proof.
+  intros Ha Hn I. destruct e; try contradiction.
+  - apply step_txn_inv; assumption.
+  - cbn [step]. destruct (save o (s_store st)) as [ops b]. intro H. inversion H; subst.
+    destruct I. constructor; assumption.
+  - cbn [step]. unfold bind. destruct (check_executable o file0 executable committed) as [[printed ops]|] eqn:CE; [|discriminate].
+    intro H. inversion H; subst st'. clear H.
+    apply check_executable_spec in CE as [Hp _].
+    destruct I as [Wf Id Nu Fi Ns Lg Um Re]. constructor; cbn [s_store s_log s_ops]; try assumption.
+    + apply Forall_app. split; [exact Ns|]. apply Forall_forall. intros g Hg.
+      apply in_map_iff in Hg as (p & <- & Hin). cbn. rewrite Forall_forall in Hp. rewrite (Hp p Hin). discriminate.
+    + apply modified_logged_mono. exact Lg.
+    + rewrite entries_of_app. eapply reach_app; [exact Re|].
+      unfold entries_of. induction printed as [|p ps IH]; [constructor|].
+      inversion Hp as [|? ? Hd Hps]; subst. cbn [map filter g_file].
+      destruct (str_eqb file0 file); [|apply IH; exact Hps].
+      cbn [map g_descr g_lineno]. econstructor; [|apply IH; exact Hps].
+      unfold entry_of, act_entry. cbn [fst snd]. rewrite Hd. cbn. left. reflexivity.
+Qed.
+
+Lemma run_inv o keys file content evs : forall st st',
+  o_autofix o = true -> Forall no_sort_event evs -> inv file content st ->
+  run o keys evs st = Ok st' -> inv file content st'.
+Proof.
+  induction evs as [|e evs IH]; intros st st' Ha Hn I; cbn [run].
+  - intro H. inversion H; subst. exact I.
+  - unfold bind. destruct (step o keys e st) as [s1|] eqn:S; [|discriminate].
+    inversion Hn; subst. intro H. eapply IH; [exact Ha|assumption| |exact H].
+    eapply step_inv; eassumption.
+Qed.
+
+(* ---------- the initial state: a loaded file ---------- *)
+
+Definition wf_groups (content : str) (groups : list (list str * str)) : Prop :=
+  concat (map fst groups) = phys_lines content /\ Forall (fun g => fst g <> []) groups.
+
+Lemma mk_lines_props file groups : forall start, 1 <= start ->
+  Forall (fun g : list str * str => fst g <> []) groups ->
+  let ls := mk_lines file start groups in
+  Forall wf_line ls /\ Forall idle ls /\ numbered start ls /\ Forall (fun l => l_file l = file) ls /\
+  Forall (fun l => line_modified l = false) ls /\
+  Forall (fun l => line_bytes l = l_raw l) ls /\
+  blocks_of_store ls = map (fun r => Block [] r []) (concat (map fst groups)).
+Proof.
+  induction groups as [|[raws text] gs IH]; intros start H1 Hg; cbn.
+  - repeat split; constructor.
+  - inversion Hg as [|? ? Hr Hgs]; subst. cbn in Hr.
+    destruct (IH (start + Z.of_nat (length raws)) ltac:(lia) Hgs) as (A & B & C & D & E & G & F).
+    split; [constructor; [constructor; cbn; [lia|exact Hr|exact I]|exact A]|].
+    split; [constructor; [exact I|exact B]|].
+    split; [split; [reflexivity|exact C]|].
+    split; [constructor; [reflexivity|exact D]|].
+    split; [constructor; [reflexivity|exact E]|].
+    split; [constructor; [reflexivity|exact G]|].
+    unfold blocks_of_store in *. cbn [flat_map]. rewrite F, map_app. reflexivity.
+Qed.
+
+Lemma init_inv file content groups :
+  wf_groups content groups -> inv file content (init_state file groups).
+Proof.
+  intros [Hc Hg]. destruct (mk_lines_props file groups 1 ltac:(lia) Hg) as (A & B & C & D & E & G & F).
+  unfold init_state. constructor; cbn [s_store s_log s_ops]; try assumption.
+  - constructor.
+  - unfold modified_logged. eapply Forall_impl; [|exact E]. cbn. intros l H1 H2. congruence.
+  - eapply Forall_impl; [|exact G]. cbn. intros l H1 _. exact H1.
+  - cbn. rewrite F, Hc. constructor.
+Qed.
+
+(* ---------- what a save writes ---------- *)
+
+Lemma flat_blocks_of_line l : wf_line l -> flat_blocks (blocks_of_line l) = concat (line_bytes l).
+Proof.
+  intros [_ Wr Wl]. unfold blocks_of_line, line_bytes. destruct (l_fix l) as [f|].
+  - rewrite flat_blocks_of_fix.
+    + rewrite !concat_app. reflexivity.
+    + intro E. rewrite E in Wl. destruct (l_raw l); [congruence|discriminate].
+  - unfold flat_blocks. rewrite map_map. unfold flat_block. cbn. clear Wr Wl.
+    induction (l_raw l) as [|r rs IH]; cbn; [reflexivity|]. rewrite app_nil_r.
+    f_equal. exact IH.
+Qed.
+
+Lemma file_content_blocks file ls :
+  Forall wf_line ls -> Forall (fun l => l_file l = file) ls ->
+  flat_blocks (blocks_of_store ls) = file_content file ls.
+Proof.
+  unfold file_content, blocks_of_store. induction ls as [|l ls IH]; intros W F; [reflexivity|].
+  inversion W as [|? ? Wl Wls]; inversion F as [|? ? Fl Fls]; subst.
+  cbn [flat_map]. rewrite flat_blocks_app, concat_app, IH by assumption.
+  rewrite flat_blocks_of_line by assumption. rewrite str_eqb_refl. reflexivity.
+Qed.
+
+Lemma has_sort_entries file log :
+  Forall (fun g => g_descr g <> DSort) log -> has_sort (entries_of file log) = false.
+Proof.
+  unfold has_sort, entries_of. induction log as [|g log IH]; intro H; [reflexivity|].
+  inversion H; subst. cbn [filter]. destruct (str_eqb (g_file g) file); [|apply IH; assumption].
+  cbn [map existsb]. rewrite IH by assumption. unfold entry_of. cbn [fst snd].
+  destruct (g_descr g); try reflexivity. congruence.
+Qed.
+
+(* C03: what a save writes is the old file with the logged actions applied *)
+Theorem save_consistent_with_log o keys file content groups evs st :
+  o_autofix o = true -> wf_groups content groups -> Forall no_sort_event evs ->
+  run o keys evs (init_state file groups) = Ok st ->
+  consistent content (entries_of file (s_log st)) (file_content file (s_store st)) = true.
+Proof.
+  intros Ha Wg Hn R.
+  pose proof (run_inv o keys file content evs _ _ Ha Hn (init_inv file content groups Wg) R) as I.
+  destruct I as [Wf Id Nu Fi Ns Lg Um Re].
+  unfold consistent. apply existsb_exists. exists (blocks_of_store (s_store st)).
+  split; [apply reach_run_log; exact Re|].
+  unfold final_ok. rewrite has_sort_entries by assumption.
+  rewrite (file_content_blocks file) by assumption. apply str_eqb_refl.
+Qed.
+
+(* ---------- the bytes on disk ---------- *)
+
+Inductive paired (file : str) : list fsop -> Prop :=
+| paired_nil : paired file []
+| paired_save c ops : paired file ops ->
+    paired file (OpWrite (file ++ tmp_suffix) c :: OpRename (file ++ tmp_suffix) file :: ops)
+| paired_chmod p ops : paired file ops -> paired file (OpChmod p :: ops).
+
+Lemma paired_app file a b : paired file a -> paired file b -> paired file (a ++ b).
+Proof. induction 1; intro; cbn; [assumption|constructor; auto|constructor; auto]. Qed.
+
+Lemma disk_after_paired file ops : paired file ops -> forall before rest,
+  disk_after file before None (ops ++ rest) = disk_after file (disk_after file before None ops) None rest.
+Proof.
+  induction 1 as [|c ops P IH|p ops P IH]; intros before rest; cbn [app disk_after].
+  - reflexivity.
+  - rewrite !str_eqb_refl. cbn [andb]. apply IH.
+  - apply IH.
+Qed.
+
+Lemma changed_files_single file ls : Forall (fun l => l_file l = file) ls ->
+  forall seen, changed_files ls seen =
+    if existsb line_modified ls && negb (existsb (str_eqb file) seen) then [file] else [].
+Proof.
+  induction ls as [|l ls IH]; intros F seen; [reflexivity|].
+  inversion F as [|? ? Fl Fls]; subst. cbn [changed_files existsb].
+  destruct (line_modified l); cbn [andb orb].
+  - destruct (existsb (str_eqb (l_file l)) seen) eqn:S; cbn [negb].
+    + rewrite IH by assumption. rewrite S. rewrite andb_false_r. reflexivity.
+    + rewrite IH by assumption. cbn [existsb]. rewrite str_eqb_refl. cbn. rewrite andb_false_r. reflexivity.
+  - apply IH. assumption.
+Qed.
+
+Lemma save_ops_single o file ls :
+  o_autofix o = true -> Forall (fun l => l_file l = file) ls ->
+  fst (save o ls) =
+    if existsb line_modified ls
+    then [OpWrite (file ++ tmp_suffix) (file_content file ls); OpRename (file ++ tmp_suffix) file]
+    else [].
+Proof.
+  intros Ha F. unfold save. rewrite Ha. cbn [negb fst].
+  rewrite (changed_files_single file ls F []). cbn [existsb negb]. rewrite andb_true_r.
+  destruct (existsb line_modified ls); reflexivity.
+Qed.
+
+Lemma unmodified_content file ls :
+  Forall (fun l => l_file l = file) ls ->
+  Forall (fun l => line_modified l = false -> line_bytes l = l_raw l) ls ->
+  existsb line_modified ls = false ->
+  file_content file ls = concat (flat_map l_raw ls).
+Proof.
+  unfold file_content. induction ls as [|l ls IH]; intros F U E; [reflexivity|].
+  inversion F as [|? ? Fl Fls]; inversion U as [|? ? Ul Uls]; subst. cbn [existsb] in E.
+  apply orb_false_iff in E as [E1 E2]. cbn [flat_map]. rewrite str_eqb_refl, !concat_app.
+  rewrite (Ul E1). f_equal. apply IH; assumption.
+Qed.
+
+(* the operations so far are complete save pairs for this file, or chmods; as long
+   as no line is modified the disk holds the original content *)
+Record disk_inv (file content : str) (st : state) : Prop := {
+  di_paired : paired file (s_ops st);
+  di_raws : concat (flat_map l_raw (s_store st)) = content;
+  di_clean : existsb line_modified (s_store st) = false -> disk_after file content None (s_ops st) = content
+}.
+
+Lemma mk_lines_raws file groups : forall start,
+  flat_map l_raw (mk_lines file start groups) = concat (map fst groups).
+Proof. induction groups as [|[raws text] gs IH]; intro start; cbn; [reflexivity|]. rewrite IH. reflexivity. Qed.
+
+Lemma set_nth_raws (ls : list line) i l l0 :
+  nth_error ls i = Some l0 -> l_raw l = l_raw l0 -> flat_map l_raw (set_nth i l ls) = flat_map l_raw ls.
+Proof.
+  revert i; induction ls as [|x ls IH]; intros [|i] Hn E; cbn in *; try discriminate.
+  - inversion Hn; subst. rewrite E. reflexivity.
+  - rewrite (IH i) by assumption. reflexivity.
+Qed.
+
+Lemma set_nth_modified (ls : list line) i l l0 :
+  nth_error ls i = Some l0 -> (line_modified l0 = true -> line_modified l = true) ->
+  existsb line_modified (set_nth i l ls) = false -> existsb line_modified ls = false.
+Proof.
+  revert i; induction ls as [|x ls IH]; intros [|i] Hn M E; cbn in *; try discriminate.
+  - inversion Hn; subst. apply orb_false_iff in E as [E1 E2]. rewrite E2, orb_false_r.
+    destruct (line_modified l0); [rewrite M in E1 by reflexivity; discriminate|reflexivity].
+  - apply orb_false_iff in E as [E1 E2]. rewrite E1. cbn. eapply IH; eassumption.
+Qed.
+
+Lemma step_disk_inv o keys file content e st st' :
+  o_autofix o = true -> no_sort_event e -> inv file content st -> disk_inv file content st ->
+  step o keys e st = Ok st' -> disk_inv file content st'.
+Proof.
+  intros Ha Hn I [P Rw Cl]. destruct e; try contradiction; cbn [step].
+  - destruct (nth_error (s_store st) (t_line t)) as [l0|] eqn:En.
+    2:{ intro H. inversion H; subst st'. constructor; assumption. }
+    unfold bind. destruct (do_txn o t l0) as [[l1 printed]|] eqn:DT; [|discriminate].
+    intro H. inversion H; subst st'. clear H.
+    pose proof En as En'. apply nth_error_split in En' as (s1 & s2 & Es & Elen).
+    assert (W0 : wf_line l0 /\ idle l0).
+    { destruct I as [Wf Id _ _ _ _ _ _]. rewrite Es in Wf, Id.
+      apply Forall_split_mid in Wf as (_ & W & _). apply Forall_split_mid in Id as (_ & D & _). auto. }
+    destruct (do_txn_reach o t l0 l1 printed Ha (proj1 W0) (proj2 W0) DT) as (_ & _ & _ & R1 & _ & _ & _ & _ & _ & _ & MM1).
+    constructor; cbn [s_store s_ops]; [exact P| |].
+    + rewrite (set_nth_raws (s_store st) (t_line t) l1 l0 En R1). exact Rw.
+    + intro E. apply Cl. eapply set_nth_modified; eassumption.
+  - pose proof (save_ops_single o file (s_store st) Ha (inv_file _ _ _ I)) as S.
+    destruct (save o (s_store st)) as [ops b]. cbn [fst] in S. subst ops.
+    intro H. inversion H; subst st'. constructor; cbn [s_store s_ops]; [|exact Rw|].
+    + apply paired_app; [exact P|]. destruct (existsb line_modified (s_store st)); repeat constructor.
+    + intro E. rewrite E, app_nil_r. apply Cl. exact E.
+  - unfold bind. destruct (check_executable o file0 executable committed) as [[printed ops]|] eqn:CE; [|discriminate].
+    intro H. inversion H; subst st'. constructor; cbn [s_store s_ops]; [|exact Rw|].
+    + apply check_executable_spec in CE as [_ [->|[-> _]]]; [rewrite app_nil_r; exact P|].
+      apply paired_app; [exact P|repeat constructor].
+    + intro E. rewrite disk_after_paired by exact P. rewrite (Cl E).
+      apply check_executable_spec in CE as [_ [->|[-> _]]]; reflexivity.
+Qed.
+
+Lemma run_both_inv o keys file content evs : forall st st',
+  o_autofix o = true -> Forall no_sort_event evs -> inv file content st -> disk_inv file content st ->
+  run o keys evs st = Ok st' -> inv file content st' /\ disk_inv file content st'.
+Proof.
+  induction evs as [|e evs IH]; intros st st' Ha Hn I D; cbn [run].
+  - intro H. inversion H; subst st'. auto.
+  - unfold bind. destruct (step o keys e st) as [s1|] eqn:S; [|discriminate].
+    inversion Hn; subst. intro H. eapply IH; [exact Ha|assumption| | |exact H].
+    + eapply step_inv; eassumption.
+    + eapply step_disk_inv; eassumption.
+Qed.
+
+Lemma run_app o keys a b st : run o keys (a ++ b) st = do s <- run o keys a st; run o keys b s.
+Proof.
+  revert st; induction a as [|e a IH]; intro st; cbn [app run bind]; [reflexivity|].
+  unfold bind. destruct (step o keys e st); [apply IH|reflexivity].
+Qed.
+
+(* after a history that ends with a save, the bytes on disk are the old bytes with
+   the logged actions applied *)
+Theorem disk_consistent_with_log o keys file content groups evs st :
+  o_autofix o = true -> wf_groups content groups -> Forall no_sort_event evs ->
+  run o keys (evs ++ [ESave]) (init_state file groups) = Ok st ->
+  consistent content (entries_of file (s_log st)) (disk_after file content None (s_ops st)) = true.
+Proof.
+  intros Ha Wg Hn R. rewrite run_app in R. unfold bind in R.
+  destruct (run o keys evs (init_state file groups)) as [s1|] eqn:R1; [|discriminate].
+  assert (D0 : disk_inv file content (init_state file groups)).
+  { constructor; cbn; [constructor| |reflexivity].
+    rewrite mk_lines_raws. destruct Wg as [Hc _]. rewrite Hc. apply phys_lines_concat. }
+  destruct (run_both_inv o keys file content evs _ _ Ha Hn (init_inv file content groups Wg) D0 R1) as [I1 [P1 Rw1 Cl1]].
+  pose proof (save_consistent_with_log o keys file content groups evs s1 Ha Wg Hn R1) as C.
+  cbn [run step bind] in R.
+  pose proof (save_ops_single o file (s_store s1) Ha (inv_file _ _ _ I1)) as S.
+  destruct (save o (s_store s1)) as [ops b]. cbn [fst] in S. subst ops.
+  inversion R; subst st. clear R. cbn [s_log s_ops].
+  rewrite disk_after_paired by exact P1.
+  destruct (existsb line_modified (s_store s1)) eqn:M.
+  - cbn [disk_after]. rewrite !str_eqb_refl. cbn [andb]. exact C.
+  - cbn [disk_after]. rewrite (Cl1 eq_refl).
+    rewrite (unmodified_content file (s_store s1) (inv_file _ _ _ I1) (inv_unmod _ _ _ I1) M), Rw1 in C.
+    exact C.
 Qed.
